@@ -28,6 +28,7 @@ type Verifier struct {
 	mu          sync.Mutex
 	assumed     map[string]bool
 	specErrors  []string
+	curDir      string // directory of the function or lemma being verified (scoped extern contracts)
 	inlineCount int
 	inlineSeq   int
 	pureNames   map[string]bool
@@ -221,6 +222,7 @@ func (x *Exec) usePreludes(c *Contract) error {
 }
 
 func (v *Verifier) verifyFunc(c *Contract) *FuncReport {
+	v.curDir = c.Dir
 	rep := &FuncReport{Name: c.Dir + "::" + c.Name, Contract: c}
 	fn := v.findFunc(c)
 	if fn == nil || fn.Blocks == nil {
@@ -446,6 +448,7 @@ func (x *Exec) paramFacts(t Term, ty types.Type) {
 
 // verifyLemma: a spec-level statement over contracts / prelude functions, no code.
 func (v *Verifier) verifyLemma(c *Contract) *FuncReport {
+	v.curDir = c.Options["pkg"]
 	rep := &FuncReport{Name: "lemma:" + c.Name, Contract: c, Class: "P"}
 	fail := func(msg string) *FuncReport {
 		rep.Obligs = append(rep.Obligs, &Oblig{Name: rep.Name, Func: rep.Name, Kind: "lemma", Status: "failed", Output: msg, Props: c.Props})
